@@ -5,8 +5,11 @@ The rules analyse the *generator* (`CompiledRouter.add_route`, `_generate_ast`,
 
 R1  atomic rejection: typestate mutate -> undo -> reject in add_route's nested
     helpers, one run per rejection site; validation precedes the first mutation.
-R2  sort key abstractly evaluated on the node kinds derived from
-    CompiledRouterNode.__init__.
+R2  sort key (lambda or any plain def, several returns allowed) abstractly
+    evaluated on the node kinds derived from CompiledRouterNode.__init__ for
+    0/1/2/3+ field expressions: literal; single field = whole segment; single
+    field with literal text around it (is_complex, num_fields == 1); multi-field.
+    Required: literal < every complex kind < plain single field.
 R3  param-writing constructs (found from their templates) only via the stack;
     emission loop <-> route return pairing; object-level alias analysis of the
     per-sibling stack (a `.copy()` is demanded only where the callee extends
@@ -26,6 +29,14 @@ R6  fixed generated names (match/groups/fragment) assigned before read;
 R7  conflicts_with evaluated on the 3x3 kinds (multi x multi not judged).
 R8  fast_return update region evaluated on all sibling sets of size <= 3;
     `return None` constructs only under the flag.
+R9  every value a construct's src() renders into a line of the generated
+    source (between quotes, in a comment, in code position) is an int / a
+    generated name / a constant, template text whose validator excludes what
+    the position cannot take, or goes through !r; each validator relied on
+    (identifier pattern incl. its end anchor, converter-map keys, whitespace
+    outside field expressions per segment) is its own obligation.
+R3-R5, R10 locate the finder call `self._find(...)` directly or through one
+    same-class helper (`*tables` / local aliases of router attributes resolved).
 """
 
 from __future__ import annotations
@@ -519,8 +530,24 @@ def _node_kinds(run) -> Dict[str, H.Rec]:
     cfg = cfg_of(init, p)
     run.use_cfg(cfg)
     kinds = H.derive_node_kinds(p, cfg)
-    run.extra['c01_node_kinds'] = sorted('is_var=%s,is_complex=%s' % k for k in kinds)
+    run.extra['c01_node_kinds'] = sorted('fields=%s,is_var=%s,is_complex=%s,num_fields=%s' % k for k in kinds)
     return H.kind_records(kinds)
+
+
+def _resolver(p, f: Func):
+    """Evaluator hook: a name/attribute that is not a local of the evaluated
+    code and resolves to a plain-signature def of the analysed tree (module
+    level function, `self.<method>`) evaluates to that def."""
+    def res(e):
+        try:
+            t = p.resolve_callable(f, e)
+        except Exception:
+            return None
+        if isinstance(t, Func) and isinstance(t.node, ast.FunctionDef) and H.plain_signature(t.node):
+            is_method = t.cls is not None and isinstance(e, ast.Attribute)
+            return H.Closure(t.node, {}, drop_first=is_method)
+        return None
+    return res
 
 
 # ---------------------------------------------------------------------------
@@ -558,13 +585,14 @@ def r2_sort_key(run):
     kinds = _node_kinds(run)
     loop = _main_loop(p, gen)
     call, flipped, name = _sorted_call_of_loop(p, gen, cfg, loop)
-    W = 'routes /a/{x}, /a/{x}.{y} and /a/b on one level: a lookup of /a/b (or /a/1.2) answered by the single-field route'
+    W = ('routes /a/{x}, /a/{x}.{y}, /a/{x}.json and /a/b on one level: a lookup of /a/b (or /a/1.2, /a/r.json) answered by the '
+         'plain single-field route /a/{x}')
     if call is None:
         in_place = [c for c in walk_self(gen.node) if isinstance(c, ast.Call) and isinstance(c.func, ast.Attribute)
                     and c.func.attr == 'sort' and isinstance(c.func.value, ast.Name) and c.func.value.id == name]
         if in_place:
             raise UnknownIdiom('%s: in-place %s is not modelled' % (gen.qual, short(in_place[0], 60)))
-        for lo, hi in (('literal', 'multi'), ('multi', 'single'), ('literal', 'single')):
+        for lo, hi in _precedence_pairs(kinds):
             run.fail('%s siblings are emitted before %s siblings (they are emitted in insertion order)' % (lo, hi),
                      gen, 'for %s in %s [unsorted: %s before %s]' % (short(loop.target), short(loop.iter), lo, hi),
                      where=gen.loc(loop), runtime_witness=W)
@@ -583,31 +611,48 @@ def r2_sort_key(run):
             raise UnknownIdiom('%s: %s' % (gen.qual, short(call, 80)))
     if key is None:
         raise UnknownIdiom('%s: sorted() without key= orders node objects' % gen.qual)
-    E = H.Evaluator(gen.qual)
+    E = H.Evaluator(gen.qual, resolver=_resolver(p, gen))
+    clo = E.ev(key, {})
+    if not isinstance(clo, H.Closure) or len(clo.params()) != 1:
+        raise UnknownIdiom('%s: sort key %s is neither a lambda nor a plain one-argument function of the analysed tree' % (
+            gen.qual, short(key, 60)))
     if isinstance(key, ast.Lambda):
-        clo = E.ev(key, {})
-        if not isinstance(clo, H.Closure):
-            raise UnknownIdiom('%s: sort key %s has an unsupported signature' % (gen.qual, short(key, 60)))
+        construct = key
     else:
-        t = p.resolve_callable(gen, key) if isinstance(key, (ast.Name, ast.Attribute)) else None
-        if not isinstance(t, Func) or H.simple_def_body(t.node) is None:
-            raise UnknownIdiom('%s: sort key %s is neither a lambda nor a single-return function' % (gen.qual, short(key, 60)))
-        clo = H.Closure(t.node, {})
-        key = t.node.body[-1].value
+        construct = 'key=%s [def %s(%s)]' % (short(key, 60), clo.node.name, ', '.join(a.arg for a in clo.node.args.args))
     vals = {}
     for nm, rec in kinds.items():
-        v = E.call_closure(clo, [rec])
+        if clo.body is not None:
+            v = E.call_closure(clo, [rec])
+        else:
+            # a def with several statements / returns: run it (a branch the evaluator cannot decide is an unknown idiom)
+            env = dict(clo.env)
+            env[clo.params()[0]] = rec
+            kind, v = H.Interp(E, gen.qual).block(clo.stmts, env)
+            if kind != 'return' or v is None:
+                raise UnknownIdiom('%s: sort key %s does not return a value on a %s node' % (gen.qual, short(key, 60), nm))
         if v is H.UNK or not isinstance(v, (int, bool, tuple)):
             raise UnknownIdiom('%s: sort key %s cannot be evaluated on a %s node' % (gen.qual, short(key, 80), nm))
         vals[nm] = v
     run.sample({'rule': 'R2', 'sort_key': short(key, 120), 'values': {k: repr(v) for k, v in vals.items()}, 'reversed': flipped})
-    for lo, hi in (('literal', 'multi'), ('multi', 'single'), ('literal', 'single')):
+    for lo, hi in _precedence_pairs(kinds):
         try:
             ok = (vals[lo] > vals[hi]) if flipped else (vals[lo] < vals[hi])
         except TypeError:
             raise UnknownIdiom('%s: sort key values %r / %r are not comparable' % (gen.qual, vals[lo], vals[hi]))
         run.check(ok, 'sort key places %s nodes strictly before %s nodes (key values %r, %r%s)' % (
-            lo, hi, vals[lo], vals[hi], ', reversed' if flipped else ''), gen, key, where=gen.loc(key), runtime_witness=W)
+            KIND_TEXT[lo], KIND_TEXT[hi], vals[lo], vals[hi], ', reversed' if flipped else ''), gen, construct,
+            where=gen.loc(key), runtime_witness=W)
+
+
+KIND_TEXT = {'literal': 'literal', 'single': 'single-field ({x})', 'affix': 'single-field-with-literal-text ({x}.json, "complex")',
+             'multi': 'multi-field ({x}-{y})', 'multi3': 'multi-field (3+ fields)'}
+
+
+def _precedence_pairs(kinds) -> List[Tuple[str, str]]:
+    """literal < every complex kind < plain single field."""
+    cx = [k for k in H.COMPLEX_KINDS if k in kinds]
+    return [('literal', k) for k in cx] + [(k, 'single') for k in cx] + [('literal', 'single')]
 
 
 # ---------------------------------------------------------------------------
@@ -654,8 +699,8 @@ def r7_conflict_table(run):
          'the generator emits code for exactly one single-field node per level',
          'add_route("/a/{x}") then add_route("/a/{y}/b") both accepted: the first lookup trips the generator\'s own '
          'assertion (internal error) or one route masks the other')
-    for a in ('literal', 'multi', 'single'):
-        for b in ('literal', 'multi', 'single'):
+    for a in ('literal', 'affix', 'multi', 'single'):
+        for b in ('literal', 'affix', 'multi', 'single'):
             if 'literal' in (a, b):
                 cell(a, b, False, 'a literal segment never conflicts with a sibling',
                      'a valid route set such as /a/b + /a/{x} is refused')
@@ -711,8 +756,8 @@ def r8_pruning(run):
     if nodes_param is None:
         raise AnchorError('%s: no parameter receives <node>.children in the recursive call' % gen.qual)
 
-    E = H.Evaluator(gen.qual)
-    lits = [kinds['literal'], kinds['multi'], kinds['single']]
+    E = H.Evaluator(gen.qual, resolver=_resolver(p, gen))
+    lits = [kinds['literal'], kinds['affix'], kinds['multi'], kinds['single']]
     import itertools
     cases = 0
     bad = None
@@ -828,13 +873,105 @@ def _generator_funcs(p, gen: Func) -> List[Func]:
     return out
 
 
-def _find_call_sites(p, router: Class) -> List[Tuple[Func, ast.Call]]:
-    out = []
+FINDER_SLOT = '_find'   # declared anchor: the router attribute holding the compiled finder / the lazy stub
+
+
+class _FinderSite:
+    """One place where a router method runs the finder: `method` either
+    contains the call `self._find(...)` itself (`via` is None) or calls the
+    same-class helper `holder` that does (`via` = that helper call).  `args`
+    are the finder's positional arguments as expressions of `method`: a
+    `*name` / `name` bound once to a tuple display / a `self.<attr>` in the
+    holder is replaced by what it is bound to, and (for a helper) the helper's
+    parameters by the caller's arguments."""
+
+    __slots__ = ('method', 'holder', 'call', 'args', 'via')
+
+    def __init__(self, method, holder, call, args, via):
+        self.method, self.holder, self.call, self.args, self.via = method, holder, call, args, via
+
+    @property
+    def anchor(self):
+        return self.via if self.via is not None else self.call
+
+
+def _single_local_def(f: Func, name: str):
+    """The value of the only binding of local `name` in f (a plain assignment), else None."""
+    if name in f.params():
+        return None
+    vals = []
+    for n in walk_self(f.node):
+        if isinstance(n, (ast.Assign, ast.AnnAssign)):
+            for t in (n.targets if isinstance(n, ast.Assign) else [n.target]):
+                if name in H._target_names(t):
+                    vals.append(n.value if isinstance(t, ast.Name) else None)
+        elif isinstance(n, (ast.AugAssign, ast.For, ast.AsyncFor, ast.NamedExpr, ast.With, ast.AsyncWith, ast.ExceptHandler)):
+            tgt = getattr(n, 'target', None)
+            if tgt is not None and name in H._target_names(tgt):
+                vals.append(None)
+    return vals[0] if len(vals) == 1 else None
+
+
+def _finder_args(holder: Func, call: ast.Call) -> List[ast.AST]:
+    if call.keywords:
+        raise UnknownIdiom('%s: call %s' % (holder.qual, short(call, 80)))
+    out: List[ast.AST] = []
+    for a in call.args:
+        if isinstance(a, ast.Starred):
+            v = a.value
+            if isinstance(v, ast.Name) and _single_local_def(holder, v.id) is not None:
+                v = _single_local_def(holder, v.id)
+            if isinstance(v, (ast.Tuple, ast.List)) and not any(isinstance(x, ast.Starred) for x in v.elts):
+                out.extend(v.elts)
+                continue
+            raise UnknownIdiom('%s: *-argument of %s is not a tuple display bound once' % (holder.qual, short(call, 80)))
+        out.append(a)
+    res = []
+    for a in out:
+        if isinstance(a, ast.Name):
+            v = _single_local_def(holder, a.id)
+            if v is not None and _self_attr(v) is not None:
+                a = v     # local alias of a router attribute
+        res.append(a)
+    return res
+
+
+def _finder_sites(p, router: Class) -> List[_FinderSite]:
+    direct: List[_FinderSite] = []
     for m in router.methods.values():
         for c in walk_self(m.node):
-            if isinstance(c, ast.Call) and _self_attr(c.func) == '_find':
-                out.append((m, c))
-    return out
+            if isinstance(c, ast.Call) and _self_attr(c.func) == FINDER_SLOT:
+                direct.append(_FinderSite(m, m, c, _finder_args(m, c), None))
+    sites = list(direct)
+    # one level of same-class helper
+    for m in router.methods.values():
+        for c in walk_self(m.node):
+            if not (isinstance(c, ast.Call) and _self_attr(c.func) is not None and _self_attr(c.func) != FINDER_SLOT):
+                continue
+            t = p.callee(m, c)
+            if not isinstance(t, Func) or t is m:
+                continue
+            for d in direct:
+                if d.holder is not t:
+                    continue
+                prms = [x for x in t.params() if x not in ('self', 'cls')]
+                rebound = {n.id for n in walk_self(t.node) if isinstance(n, ast.Name) and isinstance(n.ctx, (ast.Store, ast.Del))}
+                args = []
+                for a in d.args:
+                    if isinstance(a, ast.Name) and a.id in prms:
+                        if a.id in rebound:
+                            raise UnknownIdiom('%s: parameter %s is rebound before the finder call' % (t.qual, a.id))
+                        b = _call_arg(t, c, a.id)
+                        if b is None:
+                            raise UnknownIdiom('%s: %s relies on a default of %s' % (m.qual, short(c, 60), t.name))
+                        a = b
+                    args.append(a)
+                sites.append(_FinderSite(m, t, d.call, args, c))
+    return sites
+
+
+def _find_call_sites(p, router: Class) -> List[_FinderSite]:
+    return _finder_sites(p, router)
 
 
 def r5_side_tables(run):
@@ -866,8 +1003,9 @@ def r5_side_tables(run):
 
     # --- generated table name -> position in the generated signature
     sites = _find_call_sites(p, router)
-    if len(sites) < 2:
-        raise AnchorError('expected the call sites of self._find in find() and _compile_and_find(), found %d' % len(sites))
+    if not {'find', '_compile_and_find'} <= {st.method.name for st in sites}:
+        raise AnchorError('expected find() and _compile_and_find() to run self.%s (directly or through one same-class helper); '
+                          'found it in %s' % (FINDER_SLOT, sorted({st.method.name for st in sites})))
 
     funcs = _generator_funcs(p, gen)
     W = 'a lookup that returns another route\'s node, or matches/convert a segment with another segment\'s pattern/converter'
@@ -988,30 +1126,32 @@ def r5_side_tables(run):
                       '%s=%s in %s' % (prm, short(a, 40) if a is not None else '<default>', short(c.func, 40)), where=gen.loc(c), runtime_witness=W)
 
     # --- finder call sites: positions agree with the generated signature
-    for (m, c) in sites:
-        if c.keywords or any(isinstance(a, ast.Starred) for a in c.args):
-            raise UnknownIdiom('%s: call %s' % (m.qual, short(c, 80)))
-        run.check(len(c.args) == len(model.gen_params), '%s calls the finder with %d positional arguments (generated signature: %s)' % (
-            m.name, len(model.gen_params), ', '.join(model.gen_params)), m, c, where=m.loc(c))
+    for st in sites:
+        m, c, cargs = st.method, st.call, st.args
+        thru = '' if st.via is None else ' (through %s)' % st.holder.name
+        run.check(len(cargs) == len(model.gen_params), '%s calls the finder%s with %d positional arguments (generated signature: %s)' % (
+            m.name, thru, len(model.gen_params), ', '.join(model.gen_params)), m,
+            c if st.via is None else '%s -> %s' % (short(st.via, 60), short(c, 80)), where=m.loc(st.anchor))
         for gname, ta in sorted(table_of_gen_name.items()):
             k = model.gen_params.index(gname)
-            if k >= len(c.args):
+            if k >= len(cargs):
                 continue
-            run.check(_self_attr(c.args[k]) == ta, '%s passes self.%s in position %d (`%s` of the generated finder)' % (m.name, ta, k, gname),
-                      m, '%s: argument %d is %s' % (short(c.func, 30), k, short(c.args[k], 40)), where=m.loc(c), runtime_witness=W)
+            run.check(_self_attr(cargs[k]) == ta, '%s passes self.%s%s in position %d (`%s` of the generated finder)' % (m.name, ta, thru, k, gname),
+                      m, '%s: argument %d is %s' % (short(c.func, 30), k, short(cargs[k], 40)), where=m.loc(st.anchor), runtime_witness=W)
     # the lazy stand-in has the generated signature and forwards path/params
     lazy = p.func(ROUTER + '._compile_and_find')
     lp = lazy.params()[1:]
     run.check(len(lp) == len(model.gen_params), '_compile_and_find takes the same number of positional parameters as the generated finder',
               lazy, 'def _compile_and_find(%s)' % ', '.join(lazy.params()), where=lazy.loc())
-    for (m, c) in sites:
+    for st in sites:
+        m, c, cargs = st.method, st.call, st.args
         if m is lazy:
             for k, gname in enumerate(model.gen_params):
-                if gname in table_of_gen_name or k >= len(c.args) or k >= len(lp):
+                if gname in table_of_gen_name or k >= len(cargs) or k >= len(lp):
                     continue
-                run.check(isinstance(c.args[k], ast.Name) and c.args[k].id == lp[k],
+                run.check(isinstance(cargs[k], ast.Name) and cargs[k].id == lp[k],
                           '_compile_and_find forwards its own `%s` argument' % gname, m,
-                          '%s: argument %d is %s' % (short(c.func, 30), k, short(c.args[k], 40)), where=m.loc(c))
+                          '%s: argument %d is %s' % (short(c.func, 30), k, short(cargs[k], 40)), where=m.loc(st.anchor))
 
     # --- _compile: the objects filled by the generator are the ones the finder will get
     gnode = H.node_of_ast(ccfg, gcall)
@@ -1051,15 +1191,15 @@ def _params_gen_name(p, model: H.CxModel) -> str:
     the route's field values: the position where find() passes a local bound
     to a dict display."""
     f = p.func(ROUTER + '.find')
-    calls = [c for c in walk_self(f.node) if isinstance(c, ast.Call) and _self_attr(c.func) == '_find']
-    c = single(calls, 'call of self._find', f.qual)
+    st = single([x for x in _finder_sites(p, p.cls(ROUTER)) if x.method is f],
+                'call of self.%s (directly or through one same-class helper)' % FINDER_SLOT, f.qual)
     dict_locals = set()
     for n in walk_self(f.node):
         if isinstance(n, (ast.Assign, ast.AnnAssign)) and isinstance(n.value, ast.Dict):
             for t in (n.targets if isinstance(n, ast.Assign) else [n.target]):
                 if isinstance(t, ast.Name):
                     dict_locals.add(t.id)
-    pos = [i for i, a in enumerate(c.args) if isinstance(a, ast.Name) and a.id in dict_locals]
+    pos = [i for i, a in enumerate(st.args) if isinstance(a, ast.Name) and a.id in dict_locals]
     k = single(pos, 'dict-display argument of self._find', f.qual)
     if k >= len(model.gen_params):
         raise UnknownIdiom('%s: argument %d has no generated parameter' % (f.qual, k))
@@ -2062,135 +2202,205 @@ def r6_generated_names(run):
 # ---------------------------------------------------------------------------
 
 # ---------------------------------------------------------------------------
-# R9 quoted placeholders of the generated source (added in the build round)
+# R9 template-derived text rendered into the generated source
 # ---------------------------------------------------------------------------
 
-def r9_quoted_placeholders(run):
-    """A construct attribute rendered *between quote characters* of the
-    generated finder source must be an identifier-validated field name; text
-    taken from the URI template itself (a literal segment) must be rendered
-    with a conversion (!r) so that quotes/backslashes cannot break or alter the
-    generated code.  W: add_route("/it's") is accepted, then every find()
-    raises SyntaxError ("lookups never fail with an internal error")."""
-    import string as _string
-
-    p = run.project
-    mod = p.module('falcon.routing.compiled')
-    quoted = {}  # class qual -> [(param index in __init__ excluding self, attr, template)]
-    n_templates = 0
-    for cq, c in sorted(p.classes.items()):
-        if c.module is not mod or not c.name.startswith('_Cx'):
-            continue
-        src = c.methods.get('src')
-        init = c.methods.get('__init__')
-        if src is None:
-            continue
-        for call in [n for n in ast.walk(src.node) if isinstance(n, ast.Call) and isinstance(n.func, ast.Attribute) and n.func.attr == 'format']:
-            tv = call.func.value
+def _src_format_calls(p, cx: H.CxClass) -> List[Tuple[ast.Call, str]]:
+    """(format call, folded template) of every str.format in the construct's own src()."""
+    src = cx.src_func
+    out = []
+    for n in ast.walk(src.node):
+        if isinstance(n, (ast.JoinedStr,)) or (isinstance(n, ast.BinOp) and isinstance(n.op, ast.Mod)
+                                              and isinstance(n.left, ast.Constant) and isinstance(n.left.value, str)):
+            raise UnknownIdiom('%s: source text built by %s (only str.format templates are read)' % (src.qual, short(n, 60)))
+        if isinstance(n, ast.Call) and isinstance(n.func, ast.Attribute) and n.func.attr == 'format':
+            tv = n.func.value
             if isinstance(tv, ast.Name):
-                defs = [a.value for a in ast.walk(src.node) if isinstance(a, ast.Assign) and any(isinstance(t, ast.Name) and t.id == tv.id for t in a.targets)]
+                defs = [a.value for a in ast.walk(src.node) if isinstance(a, ast.Assign)
+                        and any(isinstance(t, ast.Name) and t.id == tv.id for t in a.targets)]
                 tv = defs[0] if len(defs) == 1 else tv
-            tmpl = p.fold(mod, tv, c, src)
+            tmpl = p.fold(src.module, tv, cx.cls, src)
             if not isinstance(tmpl, str):
+                raise UnknownIdiom('%s: template of %s is not a constant' % (src.qual, short(n, 60)))
+            if n.keywords or any(isinstance(x, ast.Starred) for x in n.args):
+                raise UnknownIdiom('%s: %s' % (src.qual, short(n, 60)))
+            out.append((n, tmpl))
+    return out
+
+
+def _converter_keys_proof(p, T: H.TemplateText, attr: str):
+    """Why every key of the router table `self.<attr>` is an identifier:
+    (regex constant, pattern, method, validating function) or UnknownIdiom."""
+    init = p.func(ROUTER + '.__init__')
+    vals = [n.value for n in walk_self(init.node) if isinstance(n, (ast.Assign, ast.AnnAssign)) and n.value is not None
+            and any(_self_attr(t) == attr for t in (n.targets if isinstance(n, ast.Assign) else [n.target]))]
+    if len(vals) != 1 or not (dotted(vals[0]) or '').startswith('self.'):
+        raise UnknownIdiom('%s: self.%s is not bound once to an attribute chain of the router' % (init.qual, attr))
+    mod = p.module(H.MODULE)
+    for c in mod.classes.values():
+        if not p.is_subclass(c.qual, 'collections.UserDict'):
+            continue
+        setitem = c.methods.get('__setitem__')
+        if setitem is None or len(setitem.params()) < 2:
+            continue
+        key = setitem.params()[1]
+        for call in [x for x in walk_self(setitem.node) if isinstance(x, ast.Call) and _self_attr(x.func) is not None]:
+            t = p.callee(setitem, call)
+            if not (isinstance(t, Func) and len(call.args) == 1 and isinstance(call.args[0], ast.Name) and call.args[0].id == key):
                 continue
+            prm = t.params()[1] if len(t.params()) > 1 else None
+            for m in walk_self(t.node):
+                if isinstance(m, ast.Call) and isinstance(m.func, ast.Attribute) and m.func.attr in ('match', 'fullmatch') \
+                        and isinstance(m.func.value, ast.Name) and T.regex_const(m.func.value.id) is not None \
+                        and len(m.args) == 1 and isinstance(m.args[0], ast.Name) and m.args[0].id == prm \
+                        and T._raising_guard(t, {id(m)}, set()) is not None:
+                    # the class is the one the router's options hold
+                    if any(isinstance(x, ast.Call) and _is_class(p.callee(g, x), c.qual) for g in mod.all_funcs for x in walk_self(g.node)):
+                        return (m.func.value.id, T.regex_const(m.func.value.id), m.func.attr, t)
+    raise UnknownIdiom('%s: keys of self.%s: no UserDict subclass whose __setitem__ validates the key against a compiled pattern '
+                       'was found' % (init.qual, attr))
+
+
+def r9_rendered_text(run):
+    """Every value that a construct's src() renders into a line of the
+    generated finder -- between quotes, in a trailing comment, or in code
+    position -- is (c) an int / a generated name / a developer-written
+    constant, (a) text of the URI template that a validator restricts so that
+    it cannot contain what the position cannot take (a line break anywhere; a
+    quote or backslash between quotes; anything but identifier characters in
+    code position), or (b) rendered through !r.  The origin of each value is
+    read from the construct's constructor, every creation site, and
+    CompiledRouterNode.__init__; each validator relied on is its own
+    obligation.  W: add_route("/it's") or add_route("/r/{y:int(\n min=1)}")
+    is accepted, then every find() raises SyntaxError ("lookups never fail
+    with an internal error")."""
+    p = run.project
+    model = H.CxModel(p)
+    T = H.TemplateText(p, model, cfg_of)
+    mod = p.module(H.MODULE)
+    run.extra['c01_node_text_attrs'] = {k: (v[0] if v[0] != 'groups' else 'groups' + repr(v[1])) for k, v in sorted(T.node_attrs.items())}
+    run.extra['c01_validated_groups'] = {g: v[0] + ':' + str(v[1]) for g, v in sorted(T.validators.items())}
+    gens = [f for f in mod.all_funcs if not (f.cls is not None and f.cls.qual in model.classes) and
+            not (f.cls is not None and f.cls.qual in (model.base_parent, model.base_child))]
+    W = {'quoted': 'add_route("/it\'s") accepted, then every find() raises SyntaxError; "/a\\x41" matches "/aA"',
+         'comment': 'add_route("/r/{year:int(\\n    num_digits=4)}") is accepted (whitespace is legal inside a field expression); the rest of the '
+                    'comment lands on a new line of the generated source and the first find() -- for any path -- raises SyntaxError',
+         'bare': 'template text in code position of the generated finder: SyntaxError / NameError at the first find()'}
+    deps: Set[str] = set()
+    n_templates = 0
+    n_ph = 0
+    for cq, cx in sorted(model.classes.items()):
+        if cx.src_func.cls is None or cx.src_func.cls.qual != cq:
+            continue   # inherits src()
+        src = cx.src_func
+        sites = None
+        for (call, tmpl) in _src_format_calls(p, cx):
             n_templates += 1
-            try:
-                parsed = list(_string.Formatter().parse(tmpl))
-            except ValueError:
-                raise UnknownIdiom('%s: bad template %r' % (src.qual, tmpl))
-            auto = 0
-            for i, (lit, field, spec, conv) in enumerate(parsed):
-                if field is None:
-                    continue
-                if field == '':
-                    idx = auto
-                    auto += 1
-                elif field.isdigit():
-                    idx = int(field)
-                else:
-                    raise UnknownIdiom('%s: named placeholder in %r' % (src.qual, tmpl))
-                nxt = parsed[i + 1][0] if i + 1 < len(parsed) else ''
-                in_quotes = bool(lit) and lit[-1] in '\'"' and bool(nxt) and nxt[0] == lit[-1]
-                if not in_quotes or conv:
-                    continue
+            for (idx, conv, pos, line) in H.placeholder_positions(tmpl, src.qual):
                 if idx >= len(call.args):
                     raise UnknownIdiom('%s: placeholder {%d} without argument' % (src.qual, idx))
                 a = call.args[idx]
-                if not (isinstance(a, ast.Attribute) and isinstance(a.value, ast.Name) and a.value.id == 'self'):
-                    raise UnknownIdiom('%s: quoted placeholder bound to %s' % (src.qual, short(a)))
-                if init is None:
-                    raise UnknownIdiom('%s: no __init__' % cq)
-                params = init.params()[1:]
-                srcs = [x.value for x in ast.walk(init.node) if isinstance(x, ast.Assign)
-                        and any(isinstance(t, ast.Attribute) and t.attr == a.attr and isinstance(t.value, ast.Name) and t.value.id == 'self' for t in x.targets)]
-                if len(srcs) != 1 or not isinstance(srcs[0], ast.Name) or srcs[0].id not in params:
-                    raise UnknownIdiom('%s: attribute %s is not a plain constructor parameter' % (cq, a.attr))
-                quoted.setdefault(cq, []).append((params.index(srcs[0].id), a.attr, tmpl))
+                # -- what the placeholder is fed with, in terms of the construct
+                if isinstance(a, ast.Call) and isinstance(p.callee(src, a), Func) and p.callee(src, a).qual == model.base_parent + '._children_src':
+                    continue   # the children's own rendered lines
+                if isinstance(a, ast.BinOp) and isinstance(a.op, ast.Mult):
+                    ws = [v for v in (p.fold(src.module, side, cx.cls, src) for side in (a.left, a.right)) if isinstance(v, str)]
+                    if len(ws) == 1 and ws[0].strip(' \t') == '' and pos == 'bare':
+                        continue   # indentation
+                    raise UnknownIdiom('%s: %s' % (src.qual, short(a, 60)))
+                if conv in ('r', 'a'):
+                    if pos == 'quoted':
+                        raise UnknownIdiom('%s: {%d!%s} between quotes in %r' % (src.qual, idx, conv, line))
+                    n_ph += 1
+                    run.ok('%s renders {%d!%s} through repr(): whatever the text, it is one well-formed literal' % (cx.name, idx, conv),
+                           src.loc(call), '%s :: {%d!%s} <- %s' % (line, idx, conv, short(a, 40)))
+                    continue
+                if isinstance(a, ast.Constant) and isinstance(a.value, (str, int)):
+                    t = H.const_txt(str(a.value))
+                    n_ph += 1
+                    run.check(not (t.haz & H.FORBIDDEN[pos]), '%s renders a constant into %s position' % (cx.name, pos), src,
+                              '%s :: {%d} <- %s' % (line, idx, short(a, 40)), where=src.loc(call))
+                    continue
+                if _self_attr(a) is None:
+                    raise UnknownIdiom('%s: placeholder {%d} of %r is fed by %s' % (src.qual, idx, line, short(a, 60)))
+                attr = a.attr
+                if attr not in cx.attr_src:
+                    raise UnknownIdiom('%s: self.%s is not set by the constructor' % (src.qual, attr))
+                if sites is None:
+                    sites = [(f, c) for f in gens for c in walk_self(f.node) if isinstance(c, ast.Call) and _is_class(p.callee(f, c), cq)]
+                if not sites:
+                    raise AnchorError('no instantiation of %s found' % cx.name)
+                for (f, c) in sites:
+                    txt = T.cx_attr_txt(cx, attr, f, c)
+                    fed = cx.attr_src[attr]
+                    arg_txt = ', '.join(short(T.ctor_arg(cx, c, i)[0], 50) for i in ([fed[1]] if fed[0] == 'param' else fed[2] if fed[0] == 'name' else []))
+                    if txt is None:
+                        raise UnknownIdiom('%s: origin of %s (rendered as self.%s of %s into %s position: %r) is not understood' % (
+                            f.qual, arg_txt or attr, attr, cx.name, pos, line))
+                    bad = sorted(txt.haz & H.FORBIDDEN[pos])
+                    deps |= txt.deps
+                    n_ph += 1
+                    run.check(not bad, '%s renders self.%s %s (%s): the text reaching it from this creation site is an int, a generated name, a '
+                              'constant, or template text validated so that it cannot contain %s -- otherwise it needs a conversion (!r)' % (
+                                  cx.name, attr, {'quoted': 'between quotes', 'comment': 'in a trailing comment', 'bare': 'in code position'}[pos],
+                                  line, ' / '.join(sorted(H.FORBIDDEN[pos]))),
+                              src, '%s :: {%d} <- self.%s <- %s' % (line, idx, attr, arg_txt or '<constant>'), where=f.loc(c),
+                              witness=['created in %s: %s' % (f.qual, short(c, 100))] + ['may contain %s' % ', '.join(bad)] + list(txt.notes)
+                              if bad else None,
+                              runtime_witness=W[pos])
     if n_templates < 8:
         raise AnchorError('only %d _Cx* source templates found' % n_templates)
-    # every instantiation of such a construct: the argument must be a validated field name
-    gens = [f for f in p.all_functions('falcon.routing.compiled.') if not f.qual.split('.')[3].startswith('_Cx')]
-    for cq, plist in sorted(quoted.items()):
-        cname = cq.rsplit('.', 1)[1]
-        sites = []
-        for f in gens:
-            for n in walk_no_nested(f.node):
-                if isinstance(n, ast.Call) and isinstance(n.func, ast.Name) and n.func.id == cname:
-                    sites.append((f, n))
-        if not sites:
-            raise AnchorError('no instantiation of %s found' % cname)
-        for (f, n) in sites:
-            for (pi, attr, tmpl) in plist:
-                if pi >= len(n.args):
-                    raise UnknownIdiom('%s: %s called without positional argument %d' % (f.qual, cname, pi))
-                arg = n.args[pi]
-                kind = _value_origin(f, arg)
-                if kind == 'unknown':
-                    raise UnknownIdiom('%s: origin of %s passed to %s.%s not understood' % (f.qual, short(arg), cname, attr))
-                run.check(kind == 'field', '%s.%s is rendered between quotes in the generated finder (%r): only identifier-validated '
-                                           'field names may go there; template text needs a conversion (!r)' % (cname, attr, tmpl.strip()[:60]),
-                          f, n, runtime_witness='add_route("/it\'s") accepted, then every find() raises SyntaxError; "/a\\x41" matches "/aA"')
-    # and the validator really restricts field names to identifiers
-    v = p.func('falcon.routing.compiled.CompiledRouter._validate_template_segment')
-    uses = [n for n in ast.walk(v.node) if isinstance(n, ast.Name) and n.id == '_IDENTIFIER_PATTERN']
-    pat = p.fold(mod, mod.consts['_IDENTIFIER_PATTERN'].args[0], None, None) if '_IDENTIFIER_PATTERN' in mod.consts and isinstance(mod.consts['_IDENTIFIER_PATTERN'], ast.Call) and mod.consts['_IDENTIFIER_PATTERN'].args else None
-    run.check(bool(uses) and isinstance(pat, str) and "'" not in pat and '\\\\' not in pat and pat.endswith('$'),
-              'field names are validated against an identifier pattern anchored at the end (no quote/backslash can reach a quoted placeholder)',
-              v, '_IDENTIFIER_PATTERN = %r' % (pat,))
+    if n_ph < 12:
+        raise AnchorError('only %d rendered placeholders found' % n_ph)
 
+    # ---- the validators relied upon
+    def probe(what, func, const, pattern, method, where):
+        try:
+            sane, accepted = H.probe_regex(pattern, method)
+        except Exception as e:   # re.error
+            raise UnknownIdiom('%s = %r does not compile: %s' % (const, pattern, e))
+        if not sane:
+            raise UnknownIdiom('%s = %r does not accept a plain identifier through .%s()' % (const, pattern, method))
+        only_trailing_nl = bool(accepted) and all(s.endswith('\n') and s.count('\n') == 1 and '\r' not in s and not s.startswith('\n')
+                                                   for ss in accepted.values() for s in ss) and set(accepted) == {H.NL}
+        tag = ''
+        if only_trailing_nl:
+            tag = ' [end anchor admits a trailing newline]'
+        elif accepted:
+            tag = ' [admits %s]' % ', '.join(sorted(accepted))
+        run.check(not accepted, what + ': used through .%s() the pattern rejects every probe string containing a line break, quote, '
+                  'backslash, whitespace or punctuation (`$` also matches before a trailing newline; `\\Z` or .fullmatch() do not)' % method,
+                  func, '%s = %r%s' % (const, pattern, tag), where=where,
+                  witness=['accepted: %r' % sorted({s for ss in accepted.values() for s in ss})[:6]] if accepted else None,
+                  runtime_witness='add_route("/a/{x\\n}") is accepted (the field name "x\\n" passes), then every find() raises '
+                                  'SyntaxError: unterminated string literal')
 
-def _value_origin(f, arg) -> str:
-    """'field' (validated field name), 'template' (raw template text) or 'unknown'."""
-    if any(isinstance(x, ast.Attribute) and x.attr == 'raw_segment' for x in ast.walk(arg)):
-        return 'template'
-    if isinstance(arg, ast.Attribute):
-        if arg.attr in ('raw_segment',):
-            return 'template'
-        if arg.attr in ('var_name',):
-            return 'field'
-        return 'unknown'
-    if isinstance(arg, ast.Name):
-        kinds = set()
-        for n in walk_no_nested(f.node):
-            if isinstance(n, ast.Assign) and any(isinstance(t, ast.Name) and t.id == arg.id for t in n.targets):
-                kinds.add(_value_origin(f, n.value))
-            elif isinstance(n, ast.Assign):
-                for t in n.targets:
-                    if isinstance(t, ast.Tuple) and any(isinstance(e, ast.Name) and e.id == arg.id for e in t.elts):
-                        pos = [i for i, e in enumerate(t.elts) if isinstance(e, ast.Name) and e.id == arg.id][0]
-                        kinds.add('field' if pos == 0 and 'var_converter_map' in ast.unparse(n.value) else 'unknown')
-            elif isinstance(n, (ast.For, ast.AsyncFor)) and isinstance(n.target, ast.Tuple):
-                names = [e.id if isinstance(e, ast.Name) else None for e in n.target.elts]
-                if arg.id in names:
-                    kinds.add('field' if names.index(arg.id) == 0 and 'var_converter_map' in ast.unparse(n.iter) else 'unknown')
-        if arg.id in f.params():
-            kinds.add('unknown')
-        if len(kinds) == 1:
-            return kinds.pop()
-        if 'template' in kinds:
-            return 'template'
-        return 'unknown'
-    return 'unknown'
+    for d in sorted(deps):
+        kind, _, g = d.partition(':')
+        if kind == 'regex':
+            v = T.validators[g]
+            probe('field-expression group %r is validated against an identifier pattern before a template is accepted' % g,
+                  T.validator, v[1], v[2], v[3], T.validator.loc(v[4]))
+        elif kind == 'member':
+            v = T.validators[g]
+            const, pattern, method, fn = _converter_keys_proof(p, T, v[1])
+            probe('field-expression group %r must be a key of self.%s, whose keys are validated by %s' % (g, v[1], fn.qual),
+                  fn, const, pattern, method, fn.loc())
+        elif kind == 'ws':
+            st, fn, node, note = T.ws_check()
+            tag = {'proved': '', 'spans': " [a field expression may span '/': whitespace inside it becomes literal text of a segment]",
+                   'absent': ''}[st]
+            run.check(st == 'proved', 'a template is rejected when a segment has whitespace outside its own field expressions (segment text '
+                      'outside the fields is rendered into a comment of the generated source and must not break the line): %s' % note, fn,
+                      (short(node.test, 120) + tag) if node is not None else note,
+                      where=fn.loc(node) if node is not None else fn.loc(),
+                      runtime_witness='add_route("/{a:int(1/\\n2)}-{y}") is accepted (the whole-template check sees one field); after the split '
+                                      'the second segment is "\\n2)}-{y}", its pattern source "^\\n2\\)}-(?P<y>.+)$" breaks the `# <pattern>` comment '
+                                      'over two lines and every find() raises SyntaxError')
+    # the validator runs on every segment before anything is inserted (order: R1 b)
+    add = T.add_route
+    run.check(any(isinstance(c, ast.Call) and p.callee(add, c) is T.validator for c in walk_self(add.node)),
+              'add_route validates every template segment (%s)' % T.validator.name, add, 'call of %s' % T.validator.name, where=add.loc())
 
 
 # ---------------------------------------------------------------------------
@@ -2211,8 +2421,18 @@ def r10_finder_invalidated(run):
     init = p.func('falcon.routing.compiled.CompiledRouter.__init__')
     find = p.func('falcon.routing.compiled.CompiledRouter.find')
     # the finder slot = the non-method self attribute that find() calls
-    slots = {c.func.attr for c in walk_self(find.node) if isinstance(c, ast.Call) and isinstance(c.func, ast.Attribute)
-             and isinstance(c.func.value, ast.Name) and c.func.value.id == 'self' and p.lookup_method(f.cls.qual, c.func.attr) is None}
+    def called_slots(g):
+        return {c.func.attr for c in walk_self(g.node) if isinstance(c, ast.Call) and isinstance(c.func, ast.Attribute)
+                and isinstance(c.func.value, ast.Name) and c.func.value.id == 'self' and p.lookup_method(f.cls.qual, c.func.attr) is None}
+
+    slots = called_slots(find)
+    if not slots:
+        # one level of same-class helper (`find` -> `self._lookup(...)` -> `self._find(...)`)
+        for c in walk_self(find.node):
+            if isinstance(c, ast.Call) and _self_attr(c.func) is not None:
+                t = p.callee(find, c)
+                if isinstance(t, Func) and t.cls is find.cls and t is not find:
+                    slots |= called_slots(t)
     if len(slots) != 1:
         raise AnchorError('finder slot of CompiledRouter.find not identified: %s' % sorted(slots))
     slot = slots.pop()
@@ -2336,6 +2556,11 @@ def check(run):
     run.assume('the generator functions contain no try/with; emission-order rules follow normal control flow only')
     run.assume('R5/R6 reaching definitions are path-insensitive: an index or construct bound in an earlier sibling iteration under '
                'the same condition as its use is not distinguished from the current one')
+    run.assume('R9: str.format templates only; escaping that neither matches nor inserts `{ } :` keeps every field expression of a segment a '
+               'field expression (the field pattern\'s character classes are negated classes); keys of the converter map are written only '
+               'through ConverterDict.__setitem__; validator regexes are judged on a fixed probe set (single hazard characters at the '
+               'start, middle and end of an identifier)')
+    run.assume('R2/R7/R8 node kinds: segments with 0, 1, 2 and 3 field expressions stand for all segments (3 = "three or more")')
     run.assume('R1-R11 are about sequential histories; a lookup IN PROGRESS while add_route recompiles keeps its answer because the recompile '
                'publishes fresh side tables instead of resetting them in place: R12, shared with C19 R6')
     run.rule('R1', r1_atomic_rejection, 'a rejected template leaves the route tree unchanged (mutate -> undo -> reject typestate)', floor=12)
@@ -2353,4 +2578,4 @@ def check(run):
     run.rule('R12', _c19.r6_tables_rebound, 'a recompile publishes fresh side tables; lookups in flight keep a consistent finder/table pair (shared with C19 R6)', floor=3)
     run.rule('R11', r11_converter_bounds, 'converter bounds are tested against None, not by truthiness', floor=1)
     run.rule('R10', r10_finder_invalidated, 'every accepted add_route invalidates or rebuilds the compiled finder', floor=3)
-    run.rule('R9', r9_quoted_placeholders, 'only validated field names are rendered between quotes of the generated source', floor=5)
+    run.rule('R9', r9_rendered_text, 'template-derived text reaches a line of the generated source only validated, converted (!r), or as int / generated name', floor=20)
